@@ -204,9 +204,34 @@ def systematic(rng, tier):
             return v if not has_key(v) else 'z' * n
         yield mk_case(rng, [rendering(rng, r, k, vn)])
 
+def many_secrets(rng, n_cases):
+    """3..6 secrets in one message: same key + same rendering, same key + different renderings, different keys
+    (a substitution that stops after a fixed number of matches leaves the later ones in clear text)"""
+    for i in range(n_cases):
+        n = rng.randint(3, 6)
+        mode = i % 3
+        k0 = rng.choice(SPEC_KEYS); r0 = rng.choice(RENDERINGS); how0 = rng.randrange(4)
+        items = []
+        for _ in range(n):
+            if mode == 0: k, r, how = k0, r0, how0
+            elif mode == 1: k, r, how = k0, rng.choice(RENDERINGS), rng.randrange(4)
+            else: k, r, how = rng.choice(SPEC_KEYS), rng.choice(RENDERINGS), rng.randrange(4)
+            K = casing(rng, k, how) + (digits(rng, how) if mode else '')
+            items.append(rendering(rng, r, K, lambda kind: draw_value(rng, kind)))
+        yield mk_case(rng, items)
+
+def many_systematic(rng):
+    # every rendering, 4 secrets under the same key and rendering (a few keys per rendering)
+    for r in RENDERINGS:
+        for k in rng.sample(SPEC_KEYS, 3):
+            K = casing(rng, k, rng.randrange(3))
+            yield mk_case(rng, [rendering(rng, r, K, lambda kind: draw_value(rng, kind, maxlen=4)) for _ in range(4)], secret='***')
+
 def gen_cases(rng, tier):
     yield from systematic(rng, tier)
+    yield from many_systematic(rng)
     scale = 1 if tier == 'quick' else 25
+    yield from many_secrets(rng, 600 * scale)
     for _ in range(1500 * scale):          # random single and multiple secrets
         n = rng.choice([1, 1, 2, 2, 3])
         items = []
@@ -335,12 +360,18 @@ def search(rng, budget):
                 items.append(rendering(rng, rng.choice(RENDERINGS), casing(rng, k, how) + digits(rng, how), lambda kind: draw_value(rng, kind)))
             n += 1
             yield mk_case(rng, items)
+        for c in many_systematic(rng):
+            n += 1
+            yield c
+        for c in many_secrets(rng, 600):
+            n += 1
+            yield c
         for _ in range(500):
             n += 1
             yield {'op': 'mask', 'msg': free_text(rng), 'secret': '***', 'kind': 'free'}
 
 RULE = ('systematic: 35 keys x 15 rendering variants x {lower, UPPER, Capitalised, random-case+digits}; every rendering x every printable ASCII '
-        'character of its value class and a non-ASCII pool at start/middle/end; lengths 1..40; random 1-3 secrets per message in neutral text; '
+        'character of its value class and a non-ASCII pool at start/middle/end; lengths 1..40; random 1-3 secrets per message in neutral text; 3-6 secrets per message (same key+rendering / same key / mixed); '
         'free text with near-miss keys; token fuzz; engine validation (pattern x subject); zone predicate. distinct = distinct case JSON; '
         'trivial = keyless message shorter than 2 characters')
 TRUSTED = ['CPython re semantics as modelled in Base/Regex.v (validated per run against re on the module\'s own compiled patterns)',
